@@ -100,7 +100,7 @@ UNITS = [
 VERIFIED_CALLEES = ()
 LEVEL = "other"
 TECHNIQUE = "contract-based deductive verification of the naming clause of the inner-parser style (VCs from the real AST, strings by cvc5/z3) + bounded relational contract across the four declaration styles"
-LEVEL_TEXT = "Verified: ActionsContainer.add_argument dispatches the four styles (an inner parser to _move_parser_actions, a dataclass-like type to the class arguments of the option's own name, a type hint to the type-hint action) and records required options under their dest; _move_parser_actions (dest prefix.replace('-','_') + '.' + dest and option '--' + prefix + '.' + rest for every prefix string, required key == new dest - this refuted the shipped code for dashed prefixes; fixed -, whole-group option declared before the members); _add_signature_arguments / _add_signature_parameter (key = nested_key.name, option --key, required / Optional / default decisions); _create_group_if_requested (whole-group --key loader, instantiable class group); _ActionConfigLoad (a whole-group value is loaded relative to its file and merged over earlier members). The property itself is relational over four construction paths: bounded only (47 types x 4 group keys x value pools x channels, agreement of decision / values / dump)."
+LEVEL_TEXT = "Verified: ActionsContainer.add_argument dispatches the four styles (an inner parser to _move_parser_actions, a dataclass-like type to the class arguments of the option's own name, a type hint to the type-hint action) and records required options under their dest; _move_parser_actions (dest prefix.replace('-','_') + '.' + dest and option '--' + prefix + '.' + rest for every prefix string, required key == new dest - this refuted the shipped code for dashed prefixes; fixed -, whole-group option declared before the members); _add_signature_arguments / _add_signature_parameter (key = nested_key.name, option --key, required / Optional / default decisions); _create_group_if_requested (whole-group --key loader, instantiable class group); _ActionConfigLoad (a whole-group value is loaded relative to its file and merged over earlier members). The property itself is relational over four construction paths: bounded only (47 types x 4 group keys x value pools x channels, agreement of decision / values / dump). Also: add_class_arguments (a default dict / Namespace / instance becomes the defaults of the declared members, None values included) and add_subclass_arguments; a refused inner-parser attach leaves the inner parser's actions untouched."
 LEVEL_NOTE = "under construction"
 EXPLANATION = "under construction"
 ASSUMPTIONS = []
